@@ -8,6 +8,7 @@ import re, sys, os, subprocess, tempfile, concurrent.futures, argparse, glob
 ap = argparse.ArgumentParser()
 ap.add_argument('pkg'); ap.add_argument('func'); ap.add_argument('--max', type=int, default=80); ap.add_argument('--jobs', type=int, default=6)
 ap.add_argument('--seed', type=int, default=1)
+ap.add_argument('--killed-json', default='')
 ap.add_argument('--verify', nargs='*', help='contract names to verify (default: the function itself)')
 a = ap.parse_args()
 name = a.func
@@ -76,5 +77,8 @@ with concurrent.futures.ThreadPoolExecutor(a.jobs) as ex:
 killed = sum(1 for r in res if r[1] == 'killed'); noc = sum(1 for r in res if r[1] == 'nocompile')
 surv = [r for r in res if r[1] not in ('killed', 'nocompile')]
 print('%s %s: %d mutants, %d killed, %d do not compile, %d survived' % (a.pkg, name, len(res), killed, noc, len(surv)))
+if a.killed_json:
+    import json
+    json.dump([{'file': f[len('/repo/'):], 'line': k + 1, 'old': lines[k], 'new': nl, 'op': desc, 'pkg': a.pkg, 'func': name} for (k, nl, desc), st in res if st == 'killed'], open(a.killed_json, 'w'), indent=1)
 for (k, nl, desc), st in surv:
     print('  %s %s:%d  [%s]\n      - %s\n      + %s' % (st, os.path.basename(f), k + 1, desc, lines[k].strip(), nl.strip()))
